@@ -489,6 +489,95 @@ theorem diff_count (s s' : List Table) :
   rw [keyedDiff_length]
   exact Nat.add_le_add (List.length_filter_le _ _) (List.length_filter_le _ _)
 
+/-! ### schema objects (PostgreSQL enum types) -/
+
+/-- **object_diff_characterisation**: for any two object lists, the changes reported are exactly: a drop for
+each current enum without a desired namesake, a modification for each one whose desired namesake lists
+other values (or the same values in another order), an addition for each desired enum without a current
+namesake. -/
+theorem object_diff_characterisation (a b : List EnumObj) (c : OChange) :
+    c ∈ objectDiff a b ↔
+      (∃ e ∈ a, (b.find? (fun e2 => e2.name == e.name) = none ∧ c = .dropObject e.name) ∨
+        (∃ e2, b.find? (fun e2 => e2.name == e.name) = some e2 ∧ e.values ≠ e2.values ∧ c = .modifyObject e.name)) ∨
+      (∃ e ∈ b, a.any (fun e1 => e1.name == e.name) = false ∧ c = .addObject e.name) := by
+  unfold objectDiff
+  simp only [List.mem_append, List.mem_filterMap]
+  constructor
+  · rintro (⟨e, he, h⟩ | ⟨e, he, h⟩)
+    · left
+      refine ⟨e, he, ?_⟩
+      cases hf : b.find? (fun e2 => e2.name == e.name) with
+      | none => rw [hf] at h; simp only [Option.some.injEq] at h; exact Or.inl ⟨rfl, h.symm⟩
+      | some e2 =>
+        rw [hf] at h
+        simp only at h
+        split at h
+        · rename_i hv
+          simp only [Option.some.injEq] at h
+          exact Or.inr ⟨e2, rfl, by simpa using hv, h.symm⟩
+        · cases h
+    · right
+      refine ⟨e, he, ?_⟩
+      split at h
+      · cases h
+      · rename_i hn
+        simp only [Option.some.injEq] at h
+        exact ⟨by simpa using hn, h.symm⟩
+  · rintro (⟨e, he, h⟩ | ⟨e, he, hn, hc⟩)
+    · left
+      refine ⟨e, he, ?_⟩
+      rcases h with ⟨hf, hc⟩ | ⟨e2, hf, hv, hc⟩
+      · rw [hf]; simp [hc]
+      · rw [hf]; simp [hc, hv]
+    · right
+      exact ⟨e, he, by simp [hn, hc]⟩
+
+/-- **enum_values_change_reported**: whenever the desired enum of the same name lists other values - one
+more, one fewer, another order - the modification is reported. -/
+theorem enum_values_change_reported (a b : List EnumObj) (e e2 : EnumObj) (he : e ∈ a)
+    (hf : b.find? (fun x => x.name == e.name) = some e2) (hv : e.values ≠ e2.values) :
+    .modifyObject e.name ∈ objectDiff a b :=
+  (object_diff_characterisation a b _).mpr (Or.inl ⟨e, he, Or.inr ⟨e2, hf, hv, rfl⟩⟩)
+
+/-- **object_diff_nil_iff**: nothing is reported exactly when every current enum has a desired namesake with
+the same ordered values and every desired enum has a current namesake. -/
+theorem object_diff_nil_iff (a b : List EnumObj) :
+    objectDiff a b = [] ↔
+      (∀ e ∈ a, ∃ e2, b.find? (fun x => x.name == e.name) = some e2 ∧ e.values = e2.values) ∧
+      (∀ e ∈ b, a.any (fun e1 => e1.name == e.name) = true) := by
+  rw [List.eq_nil_iff_forall_not_mem]
+  constructor
+  · intro h
+    constructor
+    · intro e he
+      cases hf : b.find? (fun x => x.name == e.name) with
+      | none =>
+        exact absurd ((object_diff_characterisation a b _).mpr (Or.inl ⟨e, he, Or.inl ⟨hf, rfl⟩⟩)) (h _)
+      | some e2 =>
+        refine ⟨e2, rfl, ?_⟩
+        by_cases hv : e.values = e2.values
+        · exact hv
+        · exact absurd (enum_values_change_reported a b e e2 he hf hv) (h _)
+    · intro e he
+      cases hn : a.any (fun e1 => e1.name == e.name) with
+      | true => rfl
+      | false =>
+        exact absurd ((object_diff_characterisation a b _).mpr (Or.inr ⟨e, he, hn, rfl⟩)) (h _)
+  · rintro ⟨h1, h2⟩ c hc
+    rcases (object_diff_characterisation a b c).mp hc with ⟨e, he, h⟩ | ⟨e, he, hn, _⟩
+    · obtain ⟨e2, hf, hv⟩ := h1 e he
+      rcases h with ⟨hf2, _⟩ | ⟨e3, hf3, hv3, _⟩
+      · rw [hf] at hf2; cases hf2
+      · rw [hf] at hf3; cases hf3; exact hv3 hv
+    · rw [h2 e he] at hn; cases hn
+
+example : objectDiff [⟨1, [1, 2, 3]⟩, ⟨2, [1]⟩] [⟨1, [1, 2]⟩, ⟨3, [1]⟩] =
+    [.dropObject 2, .modifyObject 1, .addObject 3] ∨
+    objectDiff [⟨1, [1, 2, 3]⟩, ⟨2, [1]⟩] [⟨1, [1, 2]⟩, ⟨3, [1]⟩] = [.modifyObject 1, .dropObject 2, .addObject 3] := by
+  decide
+
+example : objectDiff [⟨1, [1, 2]⟩] [⟨1, [2, 1]⟩] = [.modifyObject 1] := by decide
+
 /-! ### non-vacuity -/
 
 def tA : Table := { name := 1, cols := [⟨1, [0, 0]⟩, ⟨2, [1, 0]⟩], idxs := [{ name := some 1, unique := true, parts := [⟨1, false, 0⟩] }],
